@@ -1,5 +1,5 @@
 """C12 - -one-shell closes the listener at the first full shell and exits after it."""
-import json, os
+import fcntl, json, os, re, select, signal, socket, ssl, struct, termios, time
 import vlib
 
 IMPORTS = "From CRS Require Import Lib.Bytes Model.OneShell Judge.Common Judge.C12."
@@ -89,6 +89,114 @@ def term(c, r):
     return "mk %s [%s] %s %s %s" % (str(c["_one"]).lower(), "; ".join(probes), str(help_after).lower(), str(do_ok).lower(), str(traffic).lower())
 
 
+def e2e_round(binp, d, how, hold_s):
+    """The real program with -one-shell under a pty: a /io shell attaches (real TLS), stays attached for hold_s seconds with traffic at the end,
+    ends; then the operator enters ONE line; the program must exit by itself with status 0."""
+    os.makedirs(d, exist_ok=True)
+    argv = [binp, "-one-shell", "-listen-address", "127.0.0.1:0", "-tls-certificate-cache", os.path.join(d, "cert.txtar")]
+    env = dict(os.environ, HOME=d, XDG_CACHE_HOME=os.path.join(d, "xdg")); env.pop("CURLREVSHELL_LOG", None)
+    master, slave = os.openpty()
+    fcntl.ioctl(slave, termios.TIOCSWINSZ, struct.pack("HHHH", 40, 200, 0, 0))
+    pid = os.fork()
+    if pid == 0:
+        try:
+            os.setsid(); fcntl.ioctl(slave, termios.TIOCSCTTY, 0)
+            os.dup2(slave, 0); os.dup2(slave, 1); os.dup2(slave, 2); os.close(master); os.chdir(d)
+            os.execvpe(argv[0], argv, env)
+        finally:
+            os._exit(127)
+    out = b""
+    def pump(until=None, secs=5.0):
+        nonlocal out
+        t0 = time.time()
+        while time.time() - t0 < secs:
+            if until is not None and re.search(until, out):
+                return True
+            r, _, _ = select.select([master], [], [], 0.05)
+            if r:
+                try:
+                    out += os.read(master, 65536)
+                except OSError:
+                    return False
+        return until is None
+    res = {"how": how, "hold_s": hold_s, "rc": None, "attached": False, "worked_at_end": False, "gone_early": False}
+    try:
+        if not pump(rb"https://127\.0\.0\.1:(\d+)/c", 8):
+            res["error"] = "no listening address seen"; raise RuntimeError
+        port = int(re.search(rb"https://127\.0\.0\.1:(\d+)/c", out).group(1))
+        ctx = ssl.create_default_context(); ctx.check_hostname = False; ctx.verify_mode = ssl.CERT_NONE
+        c = ctx.wrap_socket(socket.create_connection(("127.0.0.1", port), timeout=5))
+        c.sendall(b"POST /io HTTP/1.1\r\nHost: h\r\nTransfer-Encoding: chunked\r\n\r\n")
+        res["attached"] = pump(rb"ready to go", 5)
+        mark = len(out)
+        t_end = time.time() + hold_s
+        while time.time() < t_end:
+            pump(None, min(1.0, max(0.0, t_end - time.time())))
+        res["gone_early"] = b"Shell is gone" in out[mark:]
+        try:
+            c.sendall(b"14\r\nSTILL-ALIVE-OUTPUT!!\n\r\n")
+            res["worked_at_end"] = pump(rb"STILL-ALIVE-OUTPUT!!", 3)
+            if how == "eof":
+                c.sendall(b"0\r\n\r\n")
+            c.close()
+        except OSError as ex:                         # the server has torn the attached shell down
+            res["send_error"] = repr(ex)
+        pump(None, 0.4)
+        os.write(master, b"\r")                      # the operator's next entered line
+        t0 = time.time()
+        while time.time() - t0 < 6:
+            pump(None, 0.1)
+            p, st = os.waitpid(pid, os.WNOHANG)
+            if p:
+                res["rc"] = os.waitstatus_to_exitcode(st); pid = 0
+                break
+    except RuntimeError:
+        pass
+    except Exception as ex:
+        res["error"] = repr(ex)
+    if pid:
+        os.kill(pid, signal.SIGKILL); os.waitpid(pid, 0); res["rc"] = 999 if res["rc"] is None else res["rc"]
+    os.close(master); os.close(slave)
+    res["output_tail"] = out[-500:].decode(errors="replace")
+    return res
+
+
+def e2e_stream(run):
+    binp = os.path.join(run.rundir, "curlrevshell")
+    rc, o, e = vlib.sh(["go", "build", "-o", binp, "."], cwd=vlib.REPO, env=vlib.GOENV, timeout=600)
+    run.checker_cmds.append("go build -o curlrevshell /repo ; the real binary with -one-shell under a fresh pty, a real TLS /io client, one entered line")
+    if rc != 0:
+        run.oblige("the program builds", False, (o + e).decode(errors="replace")[-2000:])
+        return
+    # one long-lived shell (longer than any plausible 'grace period' for closing the listener) and a batch of short ones
+    long_hold = 33 if run.tier == "quick" else 95
+    plan = [("eof" if k % 2 else "drop", 0.3) for k in range(10 if run.tier == "quick" else 60)] + [("eof", long_hold)]
+    import concurrent.futures as cf
+    with cf.ThreadPoolExecutor(max_workers=12) as ex:
+        rs = list(ex.map(lambda kp: e2e_round(binp, os.path.join(run.rundir, "e2e%d" % kp[0]), *kp[1]), list(enumerate(plan))))
+    bad = []
+    for r in rs:
+        why = None
+        if r.get("error") or not r["attached"]:
+            why = ("harness", "the scenario could not be set up: %s" % (r.get("error") or "shell did not attach"))
+        elif r["gone_early"] or not r["worked_at_end"]:
+            why = ("one-shell-shell-disturbed", "with -one-shell the attached shell did not keep working undisturbed for %s s after the listener closed" % r["hold_s"])
+        elif r["rc"] != 0:
+            why = ("one-shell-no-exit", "after the one shell ended the program did not exit with success at the operator's next entered line (status %s; 999 = had to be killed)" % r["rc"])
+        if why:
+            bad.append((why, r))
+    for (key, what), r in bad[:3]:
+        if key != "harness":
+            run.violation(key, what, {"stream": "e2e", "input": {"how_the_shell_ends": r["how"], "attached_for_s": r["hold_s"]}, "detail": r})
+    run.oblige("end to end: %d runs of the real binary with -one-shell (one shell attached for %d s, the others briefly; ended by EOF or by dropping the "
+               "connection): the shell works until it ends, then ONE entered line makes the program exit with status 0" % (len(rs), long_hold),
+               not bad, json.dumps([dict(r, why=w[1]) for w, r in bad[:3]])[:3000])
+    run.stream("e2e", len(rs), len(rs), "real binary under a pty with -one-shell, real TLS /io client; one shell stays attached for %d s (traffic at the "
+               "end must still flow, no 'gone' notice before), then each shell ends (chunked EOF or dropped connection) and the operator enters one "
+               "empty line: exit status 0 within 6 s" % long_hold, [{k: v for k, v in rs[0].items() if k != "output_tail"}],
+               {"holds_s": sorted({r["hold_s"] for r in rs}), "statuses": sorted({str(r["rc"]) for r in rs})})
+
+
 def check(run):
     vlib.static_obligations(run)
     ok, binp, log = vlib.build_overlay_test(run.rundir, "internal/hsrv", go="go")
@@ -119,6 +227,7 @@ def check(run):
                       "while half attached, after the ready notice (polling up to 3 s for 'refused'), during traffic through the shell and after the "
                       "shell ended; then Server.Do must have returned ErrOneShellClosed by itself; non-trivial = every scenario",
                       key_fn=lambda i: json.dumps(i["before"]) + i["attach"] + str(i["one_shell"]))
+    e2e_stream(run)
     run.assumptions += ["net.Listener.Close makes the kernel refuse new connections 'shortly': polled up to 3 s; http.Server.Shutdown semantics are net/http's",
                         "the program's exit status for ErrOneShellClosed / EOF is modelled (Model/OneShell.exit_code) and exercised on the real binary by C20's check"]
     run.trusted += ["harness/overlay/hsrv", "props/c12.py", "coq/Model/OneShell.v"]
@@ -126,6 +235,9 @@ def check(run):
 
 def replay(run, path):
     body = json.load(open(path))
+    if (body.get("case") or {}).get("stream") == "e2e":
+        print(json.dumps(body["case"], indent=1)[:3000]); print("timing dependent: re-run  bin/check C12 --tier quick")
+        return 1
     print(json.dumps(body.get("case") or body.get("broken"), indent=1)[:3000])
     print("re-run: bin/check C12 --tier quick")
     return 1
